@@ -69,10 +69,10 @@ type Proxy struct {
 }
 
 type ProxyOpts struct {
-	Args      []string    // extra CLI flags
-	TLSConfig *tls.Config // nil => real cert watcher + defaultTLSConfig on rig.CertFiles()
-	Listener  func(net.Listener) net.Listener // optional wrapper (accounting, fault injection)
-	ListenAddr string     // default 127.0.0.1:0
+	Args       []string                        // extra CLI flags
+	TLSConfig  *tls.Config                     // nil => real cert watcher + defaultTLSConfig on rig.CertFiles()
+	Listener   func(net.Listener) net.Listener // optional wrapper (accounting, fault injection)
+	ListenAddr string                          // default 127.0.0.1:0
 	// Tweak runs after the server has been composed and before Serve.
 	Tweak func(*fingerproxy.VerifApp)
 }
